@@ -1,0 +1,10 @@
+//go:build verif
+
+// Machine-checked contracts for govc (see /verif/DESIGN.md). Comments only;
+// compiled only with the build tag "verif".
+
+package heimdall
+
+// C01: every call that records a pipeline error on a request context is logged (ghost log spe).
+//@ iface (Context).SetPipelineError
+//@   logged spe
